@@ -986,6 +986,43 @@ fn to_lines_case(content: &str, attrs: &[Attribution], em: &mut Emitter, mut tag
             prev = l.end_line;
         }
         oracles.push(oracle("lines_well_formed", bad.is_none(), json!({"input": witness, "line": bad}), "to-lines:malformed-output"));
+        // Lean `line_winner_has_non_ws` on the real output: a line with content listed for an AI author has an
+        // attribution of that author that covers a non-whitespace character of the line (overlap widened to
+        // character boundaries inside the line) or is a zero-length marker on the line
+        let lr = line_ranges(content);
+        let mut bad_ws = None;
+        for l in v {
+            if l.author_id == HUMAN {
+                continue;
+            }
+            for k in l.start_line.max(1)..=l.end_line.min(n) {
+                let (ls, le) = lr[k as usize - 1];
+                if all_ws(&content.as_bytes()[ls..le]) {
+                    continue;
+                }
+                let earns = attrs.iter().any(|a| {
+                    if a.author_id != l.author_id || !(a.start < le && a.end > ls) {
+                        return false;
+                    }
+                    if a.start == a.end {
+                        return true;
+                    }
+                    let (mut s, mut e) = (a.start.max(ls), a.end.min(le));
+                    while s > ls && !content.is_char_boundary(s) {
+                        s -= 1;
+                    }
+                    while e < le && !content.is_char_boundary(e) {
+                        e += 1;
+                    }
+                    s < e && !all_ws(&content.as_bytes()[s..e])
+                });
+                if !earns && bad_ws.is_none() {
+                    bad_ws = Some(json!({"line": k, "author": l.author_id}));
+                }
+            }
+        }
+        oracles.push(oracle("winner_has_non_ws", bad_ws.is_none(), json!({"input": witness, "line": bad_ws}),
+                            "to-lines:whitespace-only-author-wins-line"));
     }
     tags.push("to_lines".into());
     emit_case(
